@@ -18,6 +18,7 @@ import (
 	sdk "github.com/cosmos/cosmos-sdk/types"
 	authtypes "github.com/cosmos/cosmos-sdk/x/auth/types"
 	gogoproto "github.com/cosmos/gogoproto/proto"
+	tokenomicstypes "github.com/elys-network/elys/x/tokenomics/types"
 	protov2 "google.golang.org/protobuf/proto"
 	"google.golang.org/protobuf/reflect/protoreflect"
 )
@@ -86,7 +87,7 @@ func (c *Chain) fill(v reflect.Value, name string, depth int) {
 		n = strings.ToLower(n)
 		switch {
 		case strings.Contains(n, "address") || strings.Contains(n, "feeder") || n == "creator" || n == "sender" || strings.Contains(n, "whitelist") || n == "intent":
-			return c.Addr["u3"].String()
+			return c.Addr["u2"].String() // the same account as the "user" sender class: records it names are the sender's own
 		case strings.Contains(n, "denom") || strings.Contains(n, "asset"):
 			return "uusdt"
 		case strings.Contains(n, "identifier"):
@@ -269,6 +270,10 @@ func cmdAuthority(args []string) {
 	c.SetupScene(sceneFor("positions"))
 	d := NewDriver(c)
 	prepScene(d, "positions")
+	// records whose stored authority / owner is an ordinary account (as a genesis import can leave them): the non-governance
+	// sender then is that very account
+	actx := c.AdminCtx()
+	c.App.TokenomicsKeeper.SetAirdrop(actx, tokenomicstypes.Airdrop{Intent: c.Addr["u2"].String(), Authority: c.Addr["u2"].String(), Amount: 1000, Expiry: uint64(actx.BlockTime().Unix()) + 1_000_000})
 	types := c.elysMsgTypes()
 	if *list != "" {
 		bz, _ := json.Marshal(types)
